@@ -1768,6 +1768,13 @@ func orderedLocals(fn *ssa.Function) []string {
 	}
 	var out []string
 	seen := map[string]bool{}
+	// receiver and parameters first (contracts name them too)
+	for _, p := range fn.Params {
+		if p.Name() != "_" && p.Name() != "" && !seen[p.Name()] {
+			seen[p.Name()] = true
+			out = append(out, p.Name())
+		}
+	}
 	add := func(id *ast.Ident) {
 		if id != nil && id.Name != "_" && !seen[id.Name] {
 			seen[id.Name] = true
